@@ -320,6 +320,8 @@ class Engine:
         self.args = args
         frame.env.update(args)
         self.pre = self.views(args)
+        for u in self.c.uses:
+            self.pc.append(u.formula)
         try:
             if self.c.requires is not None:
                 r = self.c.requires(self.pre)
@@ -434,6 +436,14 @@ class Engine:
             goal = S.Implies(S.Not(S.Or(*conds)), goal)
             if goal is True:
                 goal = z3.BoolVal(True)
+        if z3.is_and(goal) and goal.num_args() > 1 and kind != "canary":
+            # one obligation per conjunct (smaller queries, sharper names)
+            for ci, g in enumerate(goal.children()):
+                self._oblige1(f"{name}#{ci}", g, props, kind, info)
+            return
+        self._oblige1(name, goal, props, kind, info)
+
+    def _oblige1(self, name, goal, props, kind, info):
         base = name
         k = 0
         while name in self.obligations:
